@@ -59,7 +59,11 @@ fn mutate(s: &str, kind: u8, arg: u8, other_prefix: &str) -> String {
             }
             cs.into_iter().collect()
         }
-        2 => s[..s.len().saturating_sub(1 + arg as usize % 3)].to_string(),
+        2 => {
+            // char-wise: earlier corruptions may have inserted multi-byte characters
+            let n = s.chars().count().saturating_sub(1 + arg as usize % 3);
+            s.chars().take(n).collect()
+        }
         3 => flip_last(s),
         4 => String::new(),
         5 => match b32_decode(s) {
@@ -221,11 +225,21 @@ fn apply_muts(c: &CCase, p: &mut Parts) -> bool {
         };
         changed |= match field % 17 {
             0 => {
-                p.native["account_address_prefix"] = json!(if kind % 2 == 0 { BAD_PREFIX[arg as usize % BAD_PREFIX.len()].to_string() } else { mutate(&np, kind, arg, "x") });
+                p.native["account_address_prefix"] = json!(match kind % 3 {
+                    0 => BAD_PREFIX[arg as usize % BAD_PREFIX.len()].to_string(),
+                    1 => mutate(&np, kind, arg, "x"),
+                    _ => np.to_uppercase(),
+                });
                 true
             }
             1 => {
-                p.native["validator_address_prefix"] = json!(if kind % 2 == 0 { BAD_PREFIX[arg as usize % BAD_PREFIX.len()].to_string() } else { np.clone() });
+                let vp = format!("{}valoper", np);
+                p.native["validator_address_prefix"] = json!(match kind % 4 {
+                    0 => BAD_PREFIX[arg as usize % BAD_PREFIX.len()].to_string(),
+                    1 => np.clone(),
+                    2 => vp.to_uppercase(),
+                    _ => mutate(&vp, kind, arg, "x"),
+                });
                 true
             }
             2 => {
@@ -247,14 +261,23 @@ fn apply_muts(c: &CCase, p: &mut Parts) -> bool {
             5 => mut_s(&mut p.native["staker_address"], &pp),
             6 => mut_s(&mut p.native["reward_collector_address"], &format!("{}valoper", np)),
             7 => {
-                p.protocol["account_address_prefix"] = json!(if kind % 2 == 0 { BAD_PREFIX[arg as usize % BAD_PREFIX.len()].to_string() } else { mutate(&pp, kind, arg, "x") });
+                p.protocol["account_address_prefix"] = json!(match kind % 3 {
+                    0 => BAD_PREFIX[arg as usize % BAD_PREFIX.len()].to_string(),
+                    1 => mutate(&pp, kind, arg, "x"),
+                    _ => pp.to_uppercase(),
+                });
                 true
             }
             8 => {
                 let cur = p.protocol["ibc_token_denom"].as_str().unwrap_or("").to_string();
-                p.protocol["ibc_token_denom"] = json!(match kind % 4 {
+                p.protocol["ibc_token_denom"] = json!(match kind % 6 {
+                    4 => format!("ibc/{}", cur),
+                    5 => cur.replacen("ibc/", "ibc//", 1),
                     0 => BAD_IBC[arg as usize % BAD_IBC.len()].to_string(),
-                    1 => cur[..cur.len() - 1].to_string(),
+                    1 => {
+                        let n = cur.chars().count().saturating_sub(1);
+                        cur.chars().take(n).collect()
+                    }
                     2 => format!("{}A", cur),
                     _ => cur.replacen("ibc/", "ibc", 1),
                 });
